@@ -372,7 +372,7 @@ def run(ctx):
                 e.pop("q", None)
                 cov["samples"].append({"trace_event": e})
     c, shapes, dev = scan(trace)
-    for need in ("pool_cfmm", "pool_cl", "ext_perp", "ext_nonperp", "ext_nolock", "replace_ok", "replace_rejected", "update_ok",
+    for need in ("pool_cfmm", "pool_cl", "pool_refused", "ext_perp", "ext_nonperp", "ext_nolock", "replace_ok", "replace_rejected", "update_ok",
                  "update_rejected", "update_deletes", "fund_minted", "fund_other", "alloc_ok", "alloc_nothing_held", "alloc_zero_weight",
                  "alloc_to_gauges", "alloc_with_community_record", "alloc_remainder_left", "mint_ok", "amounts_18_decimals",
                  "gauge_other_coins", "incentivized_ok"):
